@@ -439,6 +439,114 @@ def h_relay(sp, k=2):
     sp.done()
 
 
+# ------------------------------------------------------------------------------------------ shared / moved handlers
+def h_shared(sp):
+    """One handler object owned by two dispatchers (registered with A and B), or moved (added to A, removed from A,
+    added to B); optionally a second instance of the same class with its own instance-level __events__.  One of them
+    loses its last reference; right after that a fresh handler of the class is created (CPython may hand out the
+    same address) and registered with both.  The class is created on the path."""
+    log = []
+
+    def ev1(self, log):
+        log.append(('ev1', None if self is None else self.idx))
+
+    def on2(self, log):
+        log.append(('ev2', None if self is None else self.idx))
+
+    H = event_handler('ev1')(type('H', (), {'ev1': ev1, 'on2': on2,
+                                             '__init__': lambda self, idx: setattr(self, 'idx', idx)}))
+    worlds = bool(sp.flag('dispatchers-are-worlds'))
+    A, B = (World(), World()) if worlds else (EventDispatcher(), EventDispatcher())
+    disp = {'A': A, 'B': B}
+    scenario = sp.pick(['shared', 'moved', 'A only'], 'scenario')
+    second = bool(sp.flag('second-instance'))
+    own = bool(second and sp.flag('second-has-own-__events__'))
+    strong = {0: H(0)}
+    maps = {0: {'ev1'}}
+    on = {'A': set(), 'B': set()}       # model: who is registered where
+    A.add_handler(strong[0])
+    on['A'].add(0)
+    if scenario == 'shared':
+        B.add_handler(strong[0])
+        on['B'].add(0)
+        sp.cover('shared-by-two-dispatchers')
+    elif scenario == 'moved':
+        A.remove_handler(strong[0])
+        on['A'].discard(0)
+        B.add_handler(strong[0])
+        on['B'].add(0)
+        sp.cover('moved-between-dispatchers')
+    if second:
+        strong[1] = H(1)
+        maps[1] = {'ev1'}
+        if own:
+            strong[1].__events__ = {'ev2': 'on2'}
+            maps[1] = {'ev2'}
+            sp.cover('per-instance-events')
+        for tag in ('A', 'B'):
+            disp[tag].add_handler(strong[1])
+            on[tag].add(1)
+    sp.note('%s, scenario %s%s' % ('Worlds' if worlds else 'EventDispatchers', scenario,
+                                  ', second instance%s on A and B' % (' with own __events__' if own else '')
+                                  if second else ''))
+
+    def round_(when):
+        for tag in ('A', 'B'):
+            for ev in ('ev1', 'ev2'):
+                del log[:]
+                try:
+                    disp[tag].dispatch(ev, log)
+                except Exception as ex:     # noqa
+                    msg = repr(ex)
+                    del ex
+                    sp.fail('dispatch-raises', '%s: %s.dispatch(%r) raised %s' % (when, tag, ev, msg))
+                sp.check(all(x[1] is not None for x in log), 'none-receiver', '%s: %s.dispatch(%r) called a '
+                         'callback with receiver None' % (when, tag, ev))
+                for i in sorted(maps):
+                    n = sum(1 for x in log if x == (ev, i))
+                    want = 1 if (i in on[tag] and ev in maps[i] and i in strong) else 0
+                    sp.check(n == want, 'survivor-missed' if n < want else 'called-after-gone',
+                             '%s: %s.dispatch(%r) reached handler %d %d times, expected %d (registered on %s: %r)'
+                             % (when, tag, ev, i, n, want, tag, sorted(on[tag] & set(strong))))
+            for i in sorted(strong):
+                got = disp[tag].is_handler(strong[i])
+                sp.check(got is (i in on[tag]), 'stale-registration', '%s: %s.is_handler(handler %d) is %r'
+                         % (when, tag, i, got))
+
+    round_('before the drop')
+    victim = sp.pick(sorted(strong), 'dropped')
+    if victim == 1:
+        sp.cover('second-instance-dropped')
+    ref = weakref.ref(strong[victim])
+    old_id = id(strong[victim])
+    del strong[victim]
+    # nothing allocated in between: CPython hands the freed block out again, normally at once; a few more
+    # allocations are tried (and kept until then) so that the reuse does not depend on the allocator's mood
+    fresh, spare = H(9), []
+    while id(fresh) != old_id and len(spare) < 64:
+        spare.append(fresh)
+        fresh = H(9)
+    del spare
+    reused = id(fresh) == old_id
+    sp.note('handler %d dropped; fresh handler created%s' % (victim, ' at the same address' if reused else ''))
+    if reused:
+        sp.cover('address-reused')
+    strong[9], maps[9] = fresh, {'ev1'}
+    del fresh
+    if ref() is not None:
+        gc.collect()
+    sp.check(ref() is None, 'kept-alive', 'handler %d is still alive although only dispatchers refer to it' % victim)
+    for tag in ('A', 'B'):
+        on[tag].discard(victim)
+    round_('after the drop (fresh handler not registered yet)')
+    for tag in ('A', 'B'):
+        disp[tag].add_handler(strong[9])
+        on[tag].add(9)
+    round_('after registering the fresh handler with A and B')
+    sp.cover('fresh-served')
+    sp.done()
+
+
 def h_weak(sp, k=2, world=True, cfgs=None, diag=False, drops=True, defer=(0,), klass=(0,)):
     table = WORLD_CFG if world else DISPATCHER_CFG
     allowed = list(range(N_CLASSIC[bool(world)])) if cfgs is None else list(cfgs)
@@ -496,10 +604,13 @@ def h_weak(sp, k=2, world=True, cfgs=None, diag=False, drops=True, defer=(0,), k
     sp.done()
 
 
+SHARED_TAGS = ['shared-by-two-dispatchers', 'moved-between-dispatchers', 'per-instance-events',
+               'second-instance-dropped', 'address-reused', 'fresh-served']
 RELAY_TAGS = ['created-while-disabled', 'removed-while-disabled-world-only', 'on_remove-relayed',
               'queued-event-delivered', 'dead-after-relay']
 HARNESSES = {
     'relay': dict(fn=h_relay, nontrivial=RELAY_TAGS[1:], required=RELAY_TAGS),
+    'shared': dict(fn=h_shared, nontrivial=SHARED_TAGS[:3], required=SHARED_TAGS),
     'weak': dict(fn=h_weak,
                  nontrivial=['died-during-dispatch', 'detached-alive-during-dispatch', 'survivors-and-dead'],
                  required=['kill-relation', 'died-during-dispatch', 'died-before-its-turn',
@@ -518,6 +629,7 @@ DEFER_REQ = NOCLEAR_REQ + ['died-during-deferred-release', 'cleared-during-dispa
 TIERS = {
     'quick': [
         ('relay', dict(k=2)),
+        ('shared', dict()),
         ('weak', dict(k=2, world=False, diag=True)),
         ('weak', dict(k=2, world=True, diag=True)),
         ('weak', dict(k=3, world=False, drops=False)),
@@ -535,6 +647,7 @@ TIERS = {
     ],
     'thorough': [
         ('relay', dict(k=3)),
+        ('shared', dict()),
         ('weak', dict(k=3, world=False, diag=True, drops=False)),
         ('weak', dict(k=3, world=False)),
         ('weak', dict(k=2, world=True, diag=True)),
@@ -603,6 +716,10 @@ ASSUMPTIONS = [
     'handler classes that declare __slots__ but remain weakly referenceable (__weakref__ among the slots, or an '
     'empty __slots__ in a subclass of a plain class) are held weakly like any other handler; classes whose '
     'instances cannot be weakly referenced at all are outside (add_handler cannot take them)',
+    'shared harness: a handler registered with two dispatchers (or moved from one to the other) that loses its last '
+    'reference is released by both, called by neither, reported as registered by neither; a fresh handler created '
+    'right afterwards (address reuse witnessed by a required cover tag) is not registered until added and is then '
+    'served by both; instances of one class may carry their own __events__',
     'reference counting CPython (the statement is about dropping the last reference)',
 ]
 OUTSIDE = ['more than 3 handlers of one event', 'handlers kept alive only by reference cycles that gc has not '
